@@ -142,6 +142,17 @@ func init() {
 			re := c.mcHolds("IsolationEnum", "IsolationEnum.cfg", tlcOpts{workers: 4})
 			ec, er := c.replay("isovm", re.cases, replayOpts{timeout: 60e9, opts: map[string]string{"tmp": c.work}})
 			c.judge("isovm", ec, er, func(cs, res map[string]J) string { in, _ := res["input"].(string); return in })
+			// the flags as a state machine of their own (Flags.tla: every state x every call explored by TLC; random histories of
+			// set_prolog_flag/2 with every kind of argument replayed on one interpreter - outcome class, enumeration, the effects of
+			// unknown and double_quotes after every call - while a second, untouched interpreter must keep observing its defaults)
+			c.mcHolds("Flags", "Flags_all.cfg", tlcOpts{})
+			fwalks := "num=300"
+			if c.tier == "thorough" {
+				fwalks = "num=6000"
+			}
+			fw := c.mcHolds("Flags", "Flags_walk.cfg", tlcOpts{simulate: fwalks, depth: 16, workers: 1})
+			fc, fr := c.replay("flags", fw.cases, replayOpts{})
+			c.judge("flags", fc, fr, func(cs, res map[string]J) string { in, _ := res["input"].(string); return in })
 			n := 40
 			if c.tier == "thorough" {
 				n = 500
